@@ -15,7 +15,7 @@ def run_campaign(chk, b, profiles, ncases, facets, sig_prefix, nontrivial_fn, ru
         prof = profiles[i % len(profiles)]
         specs.append(dict(seed=R.SEED, idx=i, profile=prof, sizer=sz, scratch=scratch, shimdir=shim,
                           want_table=want_table, names_modes=list(names_modes), permute=permute, nsel=nsel))
-    results = R.pmap(C.run_case, specs, chunksize=4)
+    results = R.pmap(C.run_case, specs, chunksize=4, chk=chk)
     stats = collections.Counter()
     for r in results:
         chk.count(r["runs"])
